@@ -14,7 +14,7 @@ use crate::{
     crypto::hash::HashAlgorithm,
     errors::{bail, ensure, ensure_eq, format_err, InvalidInputSnafu, Result},
     line_writer::LineBreak,
-    normalize_lines::{normalize_lines, NormalizedReader},
+    normalize_lines::normalize_lines,
     packet::{
         Packet, PacketParser, PacketTrait, Signature, SignatureConfig, SignatureType, Subpacket,
         SubpacketData,
@@ -50,13 +50,16 @@ impl CleartextSignedMessage {
         key_pw: &Password,
     ) -> Result<Self>
 where {
-        let mut bytes = text.as_bytes();
-        let signature_text = NormalizedReader::new(&mut bytes, LineBreak::Crlf);
+        // The signature is calculated over the signed form of the text, i.e. exactly what a
+        // verifier reconstructs from the cleartext: trailing spaces and tabs of each line are
+        // removed and line endings are normalized to CR+LF.
+        let csf_encoded_text = dash_escape(text);
+        let signature_text = Self::signed_text_of(&csf_encoded_text);
         let hash = config.hash_alg;
-        let signature = config.sign(key, key_pw, signature_text)?;
+        let signature = config.sign(key, key_pw, signature_text.as_bytes())?;
 
         Ok(Self {
-            csf_encoded_text: dash_escape(text),
+            csf_encoded_text,
             hashes: vec![hash],
             signatures: vec![signature],
         })
@@ -94,7 +97,8 @@ where {
     where
         F: FnOnce(&str) -> Result<Vec<Signature>>,
     {
-        let signature_text = normalize_lines(text, LineBreak::Crlf);
+        let csf_encoded_text = dash_escape(text);
+        let signature_text = Self::signed_text_of(&csf_encoded_text);
 
         let raw_signatures = signer(&signature_text[..])?;
         let mut hashes = HashSet::new();
@@ -109,7 +113,7 @@ where {
         }
 
         Ok(Self {
-            csf_encoded_text: dash_escape(text),
+            csf_encoded_text,
             hashes: hashes.into_iter().collect(),
             signatures,
         })
@@ -149,7 +153,12 @@ where {
     /// Normalizes the text to the format that was hashed for the signature.
     /// The output is normalized to "\r\n" line endings.
     pub fn signed_text(&self) -> String {
-        let unescaped = dash_unescape_and_trim(&self.csf_encoded_text);
+        Self::signed_text_of(&self.csf_encoded_text)
+    }
+
+    /// The text that is hashed for the signature, for a given dash-escaped cleartext.
+    fn signed_text_of(csf_encoded_text: &str) -> String {
+        let unescaped = dash_unescape_and_trim(csf_encoded_text);
 
         normalize_lines(&unescaped, LineBreak::Crlf).to_string()
     }
